@@ -95,12 +95,18 @@ def gen(rng, tier, index):
     spec["xform"] = gens.pick(rng, forms.PRESENT)
     spec["yform"] = gens.pick(rng, forms.PRESENT)
     spec["clobber"] = bool(rng.random() < 0.5)
+    spec["npscalars"] = bool(rng.random() < 0.3)
+    spec["reject"] = bool(rng.random() < 0.5)
+    if cls == "FPS" and isinstance(kw.get("initialize"), int) and rng.random() < 0.15:
+        kw["initialize"] = kw["initialize"] - N  # the same item, counted from the end
     spec["carry"] = gens.pick(rng, forms.CARRY)
     return {"spec": spec, "X": X, "y": y, "kind": kind, "unit": unit, "warm_at": warm_at, "decoy": decoy}
 
 
 def _run_one(spec, X, y, j, label, warm_at=None, decoy=None):
     est = sel.make(spec)
+    if spec.get("reject"):
+        forms.rejected(j, "warm start of a never-fitted selector", sel.fit, est, X, y, spec, warm=True)
     if decoy is not None:
         j.lib("fit:earlier-history", sel.fit, est, decoy["X"], decoy["y"], spec)
         j.note("estimators_with_a_past")
@@ -109,6 +115,10 @@ def _run_one(spec, X, y, j, label, warm_at=None, decoy=None):
         n_final = est.n_to_select
         est.n_to_select = warm_at
         j.lib("fit" + label, sel.fit, est, X, y, spec)
+        if spec.get("reject") and int(getattr(est, "n_selected_", 0)) >= 2:
+            # a failure in the history: a warm start asking for fewer selections than were made is refused, then corrected
+            est.n_to_select = int(est.n_selected_) - 1
+            forms.rejected(j, "shrinking warm start", sel.fit, est, X, y, spec, warm=True)
         how = spec.get("carry", "same")
         if how != "same":  # the warm start continues on a deep copy / an unpickled copy of the fitted object
             tr.detach()
@@ -130,6 +140,8 @@ def run(case, j):
         j.note("non_default_containers")
     if spec.get("xint"):
         j.note("integer_typed_inputs")
+    if spec.get("npscalars"):
+        j.note("numpy_scalar_parameters")
     if spec.get("yint"):
         j.note("integer_typed_targets")
     axis = sel.axis_of(spec)
